@@ -36,4 +36,9 @@ structure Acyclic (src : Src) (rank : Nat → Nat) : Prop where
   down : ∀ o node k e, src o = some node → e ∈ node.kids k → rank e.tgt < rank o
   total : ∀ o node k e, src o = some node → e ∈ node.kids k → src e.tgt ≠ none
 
+/-- executable check of `Acyclic` for a finite source given as a table (sound: `acyclic_of_check`) -/
+def acyclicCheck (nodes : List (Nat × Node)) (rank : Nat → Nat) : Bool :=
+  nodes.all fun p => (p.2.kidsPrim ++ p.2.kidsTyped).all fun e =>
+    decide (rank e.tgt < rank p.1) && (nodes.lookup e.tgt).isSome
+
 end Import
